@@ -49,4 +49,11 @@ def targets():
     ], title="callees assumed pure by the data-flow contracts write no module-level state")
     # the circuit passed to fit_circuit is only read through deepcopy, once per method/weight combination (inputs are not modified,
     # and results of different combinations do not share a circuit)
-    return [target_algebra()] + DF.c08_targets() + [pure, c12.target_fit_process_frame()]
+    from . import c05
+    # shared with C05: what every analysis reads (the unmasked view) is a function of the data set's current mask -- the getters
+    # select by the mask as it is now and keep no subsets from earlier calls
+    shared = [t for t in c05.targets() if "get_frequencies" in t[0] or "set_mask" in t[0] or "observers" in t[0]]
+    results = purity.target_observers(["data/data_set", "analysis/drt/result", "analysis/kramers_kronig/result", "analysis/zhit/__init__", "analysis/fitting",
+                                       "analysis/drt/tr_nnls", "analysis/drt/tr_rbf", "analysis/drt/bht", "analysis/drt/lm", "analysis/drt/mrq_fit"], "data set and result observers keep no state")
+    from . import frames
+    return [target_algebra()] + DF.c08_targets() + [pure, c12.target_fit_process_frame(), results, frames.target_inputs_not_modified()] + shared
